@@ -1,5 +1,5 @@
 """Registry of all translators: Gen/<name>.v  <-  function returning Coq text."""
-from translate import ops, gatecode, wrapper, groupsum, guards
+from translate import ops, gatecode, wrapper, groupsum, guards, parse
 
 ALL = {
     "Ops": ops.gen_ops,
@@ -10,4 +10,5 @@ ALL = {
     "HostSrc": wrapper.gen_host,
     "GroupSumSrc": groupsum.gen_groupsum,
     "Guards": guards.gen_guards,
+    "Parse": parse.gen_parse,
 }
